@@ -436,3 +436,17 @@ def rule_state(rep: Report, idx: SourceIndex) -> None:
 				r.violate(o.key, (o.file, o.line), o.message, o.fragment)
 			else:
 				r.ok(o.key, (o.file, o.line))
+	# ... and state shared by ALL instances: a parameter default built when the def runs (`expanded: set[str] = set()` in the export-order walk: the keys
+	# expanded by the FIRST export are skipped by every later one, so a second export lists a forward-referenced generic before its type variable and the
+	# import fails with SymbolNotDefined), a container in a class body, a mutated module-level container
+	scratch_c = Report('C04', rep.tier)
+	c04.rule_c(scratch_c, idx)
+	for rule in scratch_c.rules:
+		for o in rule.obligations:
+			if not any(p_ in o.key or p_ == o.file for p_ in (SER, DB, SCHEMA, 'rogw/tranp/semantics/reflection/persistent.py')):
+				continue
+			n_ += 1
+			if o.status == 'violated':
+				r.violate(o.key, (o.file, o.line), o.message + ' — the export order / the restored symbols of one call then depend on the exports and imports made before it in the same process', o.fragment)
+			else:
+				r.ok(o.key, (o.file, o.line))
